@@ -100,7 +100,9 @@ def _rdp(
         # Get point with max distance from line
         for i in range(start + 1, end):
             point_vector = curve[i] - curve[start]
-            distance = abs(np.cross(line_vector, point_vector)) / line_length
+            # 2-D cross product (np.cross no longer accepts 2-vectors)
+            cross = line_vector[0] * point_vector[1] - line_vector[1] * point_vector[0]
+            distance = abs(cross) / line_length
             if distance > dmax:
                 dmax = distance
                 index = i
